@@ -34,6 +34,15 @@ def run(ck):
         for i in idx: strs += [max(0, bints[i] - 1), bints[i], min((1 << P) - 1, bints[i] + 1)]
         for i in idx[:: max(1, len(idx) // 24)]:
             top = bints[i] >> (P - inb); strs += [top << (P - inb), ((top + 1) << (P - inb)) - 1, (bints[i] >> (P - 2 * inb)) << (P - 2 * inb), (((bints[i] >> (P - 2 * inb)) + 1) << (P - 2 * inb)) - 1]
+        # the table cells next to the cell that holds a barrier (second-level cell = first two words, first-level cell = first word): start, end
+        # and a random string of the following and of the preceding cell -- a cell filled wrongly by the table construction answers without any
+        # barrier comparison, so it only shows on strings inside it
+        for i in idx:
+            for sh_ in (P - 2 * inb, P - inb):
+                if sh_ < 0: continue
+                cell = bints[i] >> sh_
+                for c_ in (cell + 1, cell - 1):
+                    if 0 <= c_ < (1 << (P - sh_)): strs += [c_ << sh_, ((c_ + 1) << sh_) - 1, (c_ << sh_) + rng.randrange(1 << sh_)]
         # midpoints between consecutive barriers (a cell chained to the wrong barrier list shows between two barriers, not next to one)
         for i in idx:
             if i + 1 < len(bints): strs.append((bints[i] + bints[i + 1]) // 2)
